@@ -108,6 +108,7 @@ StateMonitors(e, s2, hv2) ==
   /\ Check(ExclusiveReservation(s2, hv2), "C03", "ExclusiveReservation", e, "")
   /\ Check(OneLiveEntryPerSlate(s2), "C03", "OneLiveEntryPerSlate", e, "")
   /\ Check(\A w \in Wallets(s2) \ aux.dirty : ReservationHeld(s2, hv2, w), "C03", "ReservationHeld", e, "")
+  /\ Check(NoRevertedSelected(st, s2, e.ev = "finalize"), "C18", "NeverSelectsReverted", e, "")
   /\ Check(\A w \in DOMAIN s2.w : \A k \in DOMAIN s2.w[w].outs : s2.w[w].outs[k].v >= 0, "C01", "NonNegative", e, "")
 \* code under test must never panic in these operations
 NoPanic(e) == Check(e.res # "panic", "C06", "NoPanic", e, IF Has(e, "detail") THEN e.detail ELSE "")
@@ -263,7 +264,7 @@ FinalizeArgs(e, pre, post) ==
                                                   /\ post.reg[o].key \in ({cx.outs[i].k : i \in DOMAIN cx.outs} \cup RangeOf(lkeys))}
              ELSE {} IN
   [sl |-> e.sl, stage |-> e.stage, rep |-> e.rep, ttl |-> e.ttl,
-   rkern |-> IF Has(e, "tamper") /\ e.tamper = "bogus" THEN "part" ELSE "rpart",
+   rkern |-> IF Has(e, "tamper") /\ e.tamper \in {"bogus", "bogus_expired"} THEN "part" ELSE "rpart",
    valid |-> (Ok(e) \/ e.res \in {"err:proof", "err:notfound"}),
    proofok |-> e.res # "err:proof", hasproof |-> e.hasproof,
    rout |-> IF e.sl \in DOMAIN post.body THEN post.body[e.sl].outs \ own ELSE {},
@@ -281,7 +282,10 @@ TFinalize ==
      /\ (Ok(e) /\ hasctx /\ e.stage = "S2") => FinalExact(e, st, S2)
      /\ (hasctx /\ MustRefuseTtl(st, w, e.ttl)) => Check(~Ok(e) /\ S2.w[w] = st.w[w], "C17", "ExpiredRefused", e, "finalize")
      /\ (MustNotRefuseTtl(st, w, e.ttl)) => Check(e.res # "err:expired", "C17", "NotExpiredUntouched", e, "finalize")
-     /\ (e.foreign /\ ~Ok(e)) => Check(ForeignOnlyAdds(st, S2, w, ""), "C07", "ForeignOnlyAdds", e, "finalize")
+     /\ (e.foreign /\ ~Ok(e)) => Check(ForeignOnlyAdds(st, S2, w, ""), "C07", "ForeignOnlyAdds", e,
+                                       \* what kind of pending transaction, what kind of request
+                                       (IF hasctx THEN (IF st.w[w].ctxs[e.sl].late.on THEN "late" ELSE "locked") ELSE "noctx")
+                                       \o ":" \o (IF Has(e, "tamper") THEN e.tamper ELSE "reply"))
      /\ IF hasctx
         THEN LET r == Finalize(st, w, FinalizeArgs(e, st, S2)) IN
              /\ CheckMatch((r.res = "ok") = Ok(e), e, "Finalize:res:" \o r.res)
